@@ -1481,6 +1481,374 @@ theorem C15_mp_count_bounded (f n : Nat) (bs : List Nat) (xs : List MV) (r : Lis
 end AnonModel.Msgpack
 
 namespace AnonModel.Msgpack
+/-! ## the smallest sufficient bound -/
+
+theorem decN_mono_le {f g : Nat} (hfg : f ≤ g) {n : Nat} {bs : List Nat} {p : List MV × List Nat} (h : decN f n bs = some p) :
+    decN g n bs = some p := by
+  induction hfg with
+  | refl => exact h
+  | step _ ih => exact (dec_decN_mono _).2 _ _ _ ih
+
+theorem After.len {k : Nat} {bs r : List Nat} (h : After k bs r) : k + r.length ≤ bs.length := by
+  obtain ⟨pre, hl, e⟩ := h; subst e; simp; omega
+
+/-- an answer is obtained already with the bound `sz v` (the number of nodes, counted as in `sz`), and the value is small
+against the bytes it took: `sz v + 1 ≤ 2 · consumed` -/
+theorem dec_decN_min : ∀ f : Nat,
+    (∀ bs v r, dec f bs = some (v, r) → dec (sz v) bs = some (v, r) ∧ sz v + 1 + 2 * r.length ≤ 2 * bs.length) ∧
+    (∀ n bs xs r, decN f n bs = some (xs, r) → decN (szs xs) n bs = some (xs, r) ∧ szs xs + 2 * r.length ≤ 2 * bs.length) := by
+  intro f
+  induction f with
+  | zero =>
+    refine ⟨fun bs v r h => by simp [dec] at h, fun n bs xs r h => ?_⟩
+    cases n with
+    | zero => simp only [decN, Option.some.injEq, Prod.mk.injEq] at h; obtain ⟨h1, h2⟩ := h; subst h1; subst h2; exact ⟨by simp [szs, decN], by simp [szs]⟩
+    | succ n => simp [decN] at h
+  | succ f ih =>
+    obtain ⟨ihd, ihn⟩ := ih
+    refine ⟨?_, ?_⟩
+    · intro bs v r h
+      cases bs with
+      | nil => simp [dec] at h
+      | cons b rest =>
+        by_cases c1 : b < 128
+        · rw [dec_pfix c1] at h
+          simp only [Option.some.injEq, Prod.mk.injEq] at h; obtain ⟨h1, h2⟩ := h; subst h1; subst h2
+          exact ⟨by simp only [sz]; exact dec_pfix c1 0 _, by simp only [sz, List.length_cons]; omega⟩
+        by_cases c2 : b < 144
+        · have e : b = 0x80 + (b - 128) := by omega
+          rw [e, dec_fixmap (by omega)] at h
+          cases hd : decN f (2 * (b - 128)) rest with
+          | none => simp [hd] at h
+          | some p =>
+            obtain ⟨xs, r'⟩ := p
+            rw [hd] at h
+            simp only [Option.some.injEq, Prod.mk.injEq] at h; obtain ⟨h1, h2⟩ := h; subst h1; subst h2
+            obtain ⟨m1, m2⟩ := ihn _ _ _ _ hd
+            refine ⟨?_, by simp only [sz, List.length_cons]; omega⟩
+            simp only [sz]
+            rw [Nat.add_comm 1, e, dec_fixmap (by omega), m1]
+        by_cases c3 : b < 160
+        · have e : b = 0x90 + (b - 144) := by omega
+          rw [e, dec_fixarr (by omega)] at h
+          cases hd : decN f (b - 144) rest with
+          | none => simp [hd] at h
+          | some p =>
+            obtain ⟨xs, r'⟩ := p
+            rw [hd] at h
+            simp only [Option.some.injEq, Prod.mk.injEq] at h; obtain ⟨h1, h2⟩ := h; subst h1; subst h2
+            obtain ⟨m1, m2⟩ := ihn _ _ _ _ hd
+            refine ⟨?_, by simp only [sz, List.length_cons]; omega⟩
+            simp only [sz]
+            rw [Nat.add_comm 1, e, dec_fixarr (by omega), m1]
+        by_cases c4 : b < 192
+        · have e : b = 0xa0 + (b - 160) := by omega
+          rw [e, dec_fixstr (by omega)] at h
+          cases hd : takeN (b - 160) rest with
+          | none => simp [hd] at h
+          | some p =>
+            obtain ⟨s, r'⟩ := p
+            rw [hd] at h
+            simp only [Option.some.injEq, Prod.mk.injEq] at h; obtain ⟨h1, h2⟩ := h; subst h1; subst h2
+            have hl := (takeN_after hd).len
+            refine ⟨?_, by simp only [sz, List.length_cons]; omega⟩
+            simp only [sz]
+            rw [e, dec_fixstr (by omega), hd]
+        by_cases c5 : 224 ≤ b
+        · by_cases c6 : b < 256
+          · rw [dec_nfix c5 c6] at h
+            simp only [Option.some.injEq, Prod.mk.injEq] at h; obtain ⟨h1, h2⟩ := h; subst h1; subst h2
+            exact ⟨by simp only [sz]; exact dec_nfix c5 c6 0 _, by simp only [sz, List.length_cons]; omega⟩
+          · simp only [dec] at h
+            repeat (first | rw [if_neg (by omega)] at h)
+            cases h
+        have hcases : b = 192 ∨ b = 193 ∨ b = 194 ∨ b = 195 ∨ b = 196 ∨ b = 197 ∨ b = 198 ∨ b = 199 ∨ b = 200 ∨ b = 201 ∨ b = 202 ∨ b = 203 ∨ b = 204 ∨ b = 205 ∨ b = 206 ∨ b = 207 ∨ b = 208 ∨ b = 209 ∨ b = 210 ∨ b = 211 ∨ b = 212 ∨ b = 213 ∨ b = 214 ∨ b = 215 ∨ b = 216 ∨ b = 217 ∨ b = 218 ∨ b = 219 ∨ b = 220 ∨ b = 221 ∨ b = 222 ∨ b = 223 := by omega
+        rcases hcases with e | e | e | e | e | e | e | e | e | e | e | e | e | e | e | e | e | e | e | e | e | e | e | e | e | e | e | e | e | e | e | e
+        · subst e; rw [dec_c0] at h; simp only [Option.some.injEq, Prod.mk.injEq] at h; obtain ⟨h1, h2⟩ := h; subst h1; subst h2; exact ⟨by simp only [sz]; exact dec_c0 0 _, by simp only [sz, List.length_cons]; omega⟩
+        · subst e; simp [dec] at h
+        · subst e; rw [dec_c2] at h; simp only [Option.some.injEq, Prod.mk.injEq] at h; obtain ⟨h1, h2⟩ := h; subst h1; subst h2; exact ⟨by simp only [sz]; exact dec_c2 0 _, by simp only [sz, List.length_cons]; omega⟩
+        · subst e; rw [dec_c3] at h; simp only [Option.some.injEq, Prod.mk.injEq] at h; obtain ⟨h1, h2⟩ := h; subst h1; subst h2; exact ⟨by simp only [sz]; exact dec_c3 0 _, by simp only [sz, List.length_cons]; omega⟩
+        · subst e; rw [dec_c4] at h
+          cases hd : readRun 1 rest with
+          | none => simp [hd] at h
+          | some p =>
+            obtain ⟨s, r'⟩ := p
+            rw [hd] at h
+            simp only [Option.some.injEq, Prod.mk.injEq] at h; obtain ⟨h1, h2⟩ := h; subst h1; subst h2
+            have hl := (readRun_after hd).len
+            refine ⟨?_, by simp only [sz, List.length_cons]; omega⟩
+            simp only [sz]
+            rw [dec_c4, hd]
+        · subst e; rw [dec_c5] at h
+          cases hd : readRun 2 rest with
+          | none => simp [hd] at h
+          | some p =>
+            obtain ⟨s, r'⟩ := p
+            rw [hd] at h
+            simp only [Option.some.injEq, Prod.mk.injEq] at h; obtain ⟨h1, h2⟩ := h; subst h1; subst h2
+            have hl := (readRun_after hd).len
+            refine ⟨?_, by simp only [sz, List.length_cons]; omega⟩
+            simp only [sz]
+            rw [dec_c5, hd]
+        · subst e; rw [dec_c6] at h
+          cases hd : readRun 4 rest with
+          | none => simp [hd] at h
+          | some p =>
+            obtain ⟨s, r'⟩ := p
+            rw [hd] at h
+            simp only [Option.some.injEq, Prod.mk.injEq] at h; obtain ⟨h1, h2⟩ := h; subst h1; subst h2
+            have hl := (readRun_after hd).len
+            refine ⟨?_, by simp only [sz, List.length_cons]; omega⟩
+            simp only [sz]
+            rw [dec_c6, hd]
+        · subst e; simp [dec] at h
+        · subst e; simp [dec] at h
+        · subst e; simp [dec] at h
+        · subst e; simp [dec] at h
+        · subst e; simp [dec] at h
+        · subst e; rw [dec_cc] at h
+          cases hd : readBe 1 rest with
+          | none => simp [hd] at h
+          | some p =>
+            obtain ⟨s, r'⟩ := p
+            rw [hd] at h
+            simp only [Option.some.injEq, Prod.mk.injEq] at h; obtain ⟨h1, h2⟩ := h; subst h1; subst h2
+            have hl := (readBe_after hd).len
+            refine ⟨?_, by simp only [sz, List.length_cons]; omega⟩
+            simp only [sz]
+            rw [dec_cc, hd]
+        · subst e; rw [dec_cd] at h
+          cases hd : readBe 2 rest with
+          | none => simp [hd] at h
+          | some p =>
+            obtain ⟨s, r'⟩ := p
+            rw [hd] at h
+            simp only [Option.some.injEq, Prod.mk.injEq] at h; obtain ⟨h1, h2⟩ := h; subst h1; subst h2
+            have hl := (readBe_after hd).len
+            refine ⟨?_, by simp only [sz, List.length_cons]; omega⟩
+            simp only [sz]
+            rw [dec_cd, hd]
+        · subst e; rw [dec_ce] at h
+          cases hd : readBe 4 rest with
+          | none => simp [hd] at h
+          | some p =>
+            obtain ⟨s, r'⟩ := p
+            rw [hd] at h
+            simp only [Option.some.injEq, Prod.mk.injEq] at h; obtain ⟨h1, h2⟩ := h; subst h1; subst h2
+            have hl := (readBe_after hd).len
+            refine ⟨?_, by simp only [sz, List.length_cons]; omega⟩
+            simp only [sz]
+            rw [dec_ce, hd]
+        · subst e; rw [dec_cf] at h
+          cases hd : readBe 8 rest with
+          | none => simp [hd] at h
+          | some p =>
+            obtain ⟨s, r'⟩ := p
+            rw [hd] at h
+            simp only [Option.some.injEq, Prod.mk.injEq] at h; obtain ⟨h1, h2⟩ := h; subst h1; subst h2
+            have hl := (readBe_after hd).len
+            refine ⟨?_, by simp only [sz, List.length_cons]; omega⟩
+            simp only [sz]
+            rw [dec_cf, hd]
+        · subst e; rw [dec_d0] at h
+          cases hd : readBe 1 rest with
+          | none => simp [hd] at h
+          | some p =>
+            obtain ⟨s, r'⟩ := p
+            rw [hd] at h
+            simp only [Option.some.injEq, Prod.mk.injEq] at h; obtain ⟨h1, h2⟩ := h; subst h1; subst h2
+            have hl := (readBe_after hd).len
+            refine ⟨?_, by simp only [sz, List.length_cons]; omega⟩
+            simp only [sz]
+            rw [dec_d0, hd]
+        · subst e; rw [dec_d1] at h
+          cases hd : readBe 2 rest with
+          | none => simp [hd] at h
+          | some p =>
+            obtain ⟨s, r'⟩ := p
+            rw [hd] at h
+            simp only [Option.some.injEq, Prod.mk.injEq] at h; obtain ⟨h1, h2⟩ := h; subst h1; subst h2
+            have hl := (readBe_after hd).len
+            refine ⟨?_, by simp only [sz, List.length_cons]; omega⟩
+            simp only [sz]
+            rw [dec_d1, hd]
+        · subst e; rw [dec_d2] at h
+          cases hd : readBe 4 rest with
+          | none => simp [hd] at h
+          | some p =>
+            obtain ⟨s, r'⟩ := p
+            rw [hd] at h
+            simp only [Option.some.injEq, Prod.mk.injEq] at h; obtain ⟨h1, h2⟩ := h; subst h1; subst h2
+            have hl := (readBe_after hd).len
+            refine ⟨?_, by simp only [sz, List.length_cons]; omega⟩
+            simp only [sz]
+            rw [dec_d2, hd]
+        · subst e; rw [dec_d3] at h
+          cases hd : readBe 8 rest with
+          | none => simp [hd] at h
+          | some p =>
+            obtain ⟨s, r'⟩ := p
+            rw [hd] at h
+            simp only [Option.some.injEq, Prod.mk.injEq] at h; obtain ⟨h1, h2⟩ := h; subst h1; subst h2
+            have hl := (readBe_after hd).len
+            refine ⟨?_, by simp only [sz, List.length_cons]; omega⟩
+            simp only [sz]
+            rw [dec_d3, hd]
+        · subst e; simp [dec] at h
+        · subst e; simp [dec] at h
+        · subst e; simp [dec] at h
+        · subst e; simp [dec] at h
+        · subst e; simp [dec] at h
+        · subst e; rw [dec_d9] at h
+          cases hd : readRun 1 rest with
+          | none => simp [hd] at h
+          | some p =>
+            obtain ⟨s, r'⟩ := p
+            rw [hd] at h
+            simp only [Option.some.injEq, Prod.mk.injEq] at h; obtain ⟨h1, h2⟩ := h; subst h1; subst h2
+            have hl := (readRun_after hd).len
+            refine ⟨?_, by simp only [sz, List.length_cons]; omega⟩
+            simp only [sz]
+            rw [dec_d9, hd]
+        · subst e; rw [dec_da] at h
+          cases hd : readRun 2 rest with
+          | none => simp [hd] at h
+          | some p =>
+            obtain ⟨s, r'⟩ := p
+            rw [hd] at h
+            simp only [Option.some.injEq, Prod.mk.injEq] at h; obtain ⟨h1, h2⟩ := h; subst h1; subst h2
+            have hl := (readRun_after hd).len
+            refine ⟨?_, by simp only [sz, List.length_cons]; omega⟩
+            simp only [sz]
+            rw [dec_da, hd]
+        · subst e; rw [dec_db] at h
+          cases hd : readRun 4 rest with
+          | none => simp [hd] at h
+          | some p =>
+            obtain ⟨s, r'⟩ := p
+            rw [hd] at h
+            simp only [Option.some.injEq, Prod.mk.injEq] at h; obtain ⟨h1, h2⟩ := h; subst h1; subst h2
+            have hl := (readRun_after hd).len
+            refine ⟨?_, by simp only [sz, List.length_cons]; omega⟩
+            simp only [sz]
+            rw [dec_db, hd]
+        · subst e; rw [dec_dc] at h
+          cases hd : readBe 2 rest with
+          | none => simp [hd] at h
+          | some p =>
+            obtain ⟨n, r'⟩ := p
+            rw [hd] at h
+            simp only at h
+            cases hq : decN f n r' with
+            | none => simp [hq] at h
+            | some q =>
+              obtain ⟨xs, r2⟩ := q
+              rw [hq] at h
+              simp only [Option.some.injEq, Prod.mk.injEq] at h; obtain ⟨h1, h2⟩ := h; subst h1; subst h2
+              obtain ⟨m1, m2⟩ := ihn _ _ _ _ hq
+              have hl := (readBe_after hd).len
+              refine ⟨?_, by simp only [sz, List.length_cons]; omega⟩
+              simp only [sz]
+              rw [Nat.add_comm 1, dec_dc, hd]
+              simp only []
+              rw [m1]
+        · subst e; rw [dec_dd] at h
+          cases hd : readBe 4 rest with
+          | none => simp [hd] at h
+          | some p =>
+            obtain ⟨n, r'⟩ := p
+            rw [hd] at h
+            simp only at h
+            cases hq : decN f n r' with
+            | none => simp [hq] at h
+            | some q =>
+              obtain ⟨xs, r2⟩ := q
+              rw [hq] at h
+              simp only [Option.some.injEq, Prod.mk.injEq] at h; obtain ⟨h1, h2⟩ := h; subst h1; subst h2
+              obtain ⟨m1, m2⟩ := ihn _ _ _ _ hq
+              have hl := (readBe_after hd).len
+              refine ⟨?_, by simp only [sz, List.length_cons]; omega⟩
+              simp only [sz]
+              rw [Nat.add_comm 1, dec_dd, hd]
+              simp only []
+              rw [m1]
+        · subst e; rw [dec_de] at h
+          cases hd : readBe 2 rest with
+          | none => simp [hd] at h
+          | some p =>
+            obtain ⟨n, r'⟩ := p
+            rw [hd] at h
+            simp only at h
+            cases hq : decN f (2 * n) r' with
+            | none => simp [hq] at h
+            | some q =>
+              obtain ⟨xs, r2⟩ := q
+              rw [hq] at h
+              simp only [Option.some.injEq, Prod.mk.injEq] at h; obtain ⟨h1, h2⟩ := h; subst h1; subst h2
+              obtain ⟨m1, m2⟩ := ihn _ _ _ _ hq
+              have hl := (readBe_after hd).len
+              refine ⟨?_, by simp only [sz, List.length_cons]; omega⟩
+              simp only [sz]
+              rw [Nat.add_comm 1, dec_de, hd]
+              simp only []
+              rw [m1]
+        · subst e; rw [dec_df] at h
+          cases hd : readBe 4 rest with
+          | none => simp [hd] at h
+          | some p =>
+            obtain ⟨n, r'⟩ := p
+            rw [hd] at h
+            simp only at h
+            cases hq : decN f (2 * n) r' with
+            | none => simp [hq] at h
+            | some q =>
+              obtain ⟨xs, r2⟩ := q
+              rw [hq] at h
+              simp only [Option.some.injEq, Prod.mk.injEq] at h; obtain ⟨h1, h2⟩ := h; subst h1; subst h2
+              obtain ⟨m1, m2⟩ := ihn _ _ _ _ hq
+              have hl := (readBe_after hd).len
+              refine ⟨?_, by simp only [sz, List.length_cons]; omega⟩
+              simp only [sz]
+              rw [Nat.add_comm 1, dec_df, hd]
+              simp only []
+              rw [m1]
+    · intro n bs xs r h
+      cases n with
+      | zero => simp only [decN, Option.some.injEq, Prod.mk.injEq] at h; obtain ⟨h1, h2⟩ := h; subst h1; subst h2; exact ⟨by simp [szs, decN], by simp [szs]⟩
+      | succ n =>
+        simp only [decN] at h
+        cases hd : dec f bs with
+        | none => simp [hd] at h
+        | some p =>
+          obtain ⟨x, r1⟩ := p
+          rw [hd] at h
+          simp only at h
+          cases hn : decN f n r1 with
+          | none => simp [hn] at h
+          | some q =>
+            obtain ⟨ys, r2⟩ := q
+            rw [hn] at h
+            simp only [Option.some.injEq, Prod.mk.injEq] at h; obtain ⟨h1, h2⟩ := h; subst h1; subst h2
+            obtain ⟨d1, d2⟩ := ihd _ _ _ hd
+            obtain ⟨n1, n2⟩ := ihn _ _ _ _ hn
+            refine ⟨?_, by simp only [szs]; omega⟩
+            simp only [szs]
+            have e : 1 + sz x + szs ys = (sz x + szs ys) + 1 := by omega
+            rw [e]
+            simp only [decN]
+            rw [dec_mono_le (by omega) d1]
+            simp only []
+            rw [decN_mono_le (by omega) n1]
+
+/-- **`decode` is the reader with no bound at all**: an answer obtained under *any* bound is `decode`'s answer -/
+theorem C15_mp_decode_complete (f : Nat) (bs : List Nat) (v : MV) (r : List Nat) (h : dec f bs = some (v, r)) :
+    decode bs = some v := by
+  obtain ⟨h1, h2⟩ := (dec_decN_min f).1 bs v r h
+  exact C15_mp_bound_irrelevant (sz v) bs v r (by omega) h1
+
+end AnonModel.Msgpack
+
+namespace AnonModel.Msgpack
 /-! non-vacuity of the typed hypotheses: a map with the one required member of `PresentationProofValue` -/
 example : payloadKind (.map [.str (key "aggregated"), .nil]) = some 3 := by
   simp [payloadKind, hasKeys, field, key]
